@@ -174,6 +174,10 @@ class Generator:
             rng = self.src.impl_block(r'^impl<const MIN_ALIGN: usize> Drop for Bump<MIN_ALIGN>$')
         elif impl == 'rawvec':
             rng = self.src.impl_block_containing(r"^impl<'a, T> RawVec<'a, T>$", src_name)
+        elif impl == 'vec':
+            rng = self.src.impl_block_containing(r"^impl<'bump, T: 'bump> Vec<'bump, T>$", src_name)
+        elif impl == 'setlen':
+            rng = self.src.impl_block_containing(r"^impl<'a> SetLenOnDrop<'a>$", src_name)
         elif impl == 'free':
             rng = None
         else:
@@ -184,7 +188,7 @@ class Generator:
         if region:
             body = self.cut_region(body, region)
         cfg = {
-            'kind': 'footer' if impl == 'footer' else impl,
+            'kind': 'footer' if impl == 'footer' else ('vec' if impl == 'vec' else impl),
             'footer_fields': [n for n, _, _, _ in self.footer_fields],
             'self_cells': self.bump_cells if impl in ('bump', 'bump1', 'drop') else (['footer'] if impl == 'iter' else []),
             'w_funcs': self.w_funcs,
